@@ -9,8 +9,10 @@ import (
 	"fmt"
 	"io"
 	"math/big"
+	"os"
 	"runtime"
 	"sync"
+	"syscall"
 
 	"github.com/bytemare/secp256k1"
 	"github.com/bytemare/secp256k1/zz_verif/gen"
@@ -26,7 +28,11 @@ type c18Case struct {
 	Chunks   []int  `json:"chunks"`             // read granularity script, cycled; 0 = a zero-length read without error
 	FailAt   int    `json:"fail_at"`            // the source fails once this many bytes were delivered (-1: only at end of stream)
 	EagerErr bool   `json:"eager_err,omitempty"` // deliver the last bytes before the failure together with the error
-	Pre      string `json:"pre"`                // value pre-loaded in the receiver
+	// Transient: the failure at FailAt is a single interrupted read (the error wraps syscall.EINTR / EAGAIN); the source then
+	// carries on with the rest of the stream. A Random that gives up (panics) and one that correctly resumes are both
+	// acceptable; one that returns anything but the first usable block of the whole stream is not.
+	Transient string `json:"transient,omitempty"`
+	Pre       string `json:"pre"` // value pre-loaded in the receiver
 	Class    string `json:"class"`
 	// Conc > 0: that many goroutines call Random simultaneously on scalars they own, the source serving each read a
 	// fresh, unique, usable block (and yielding the processor just before it returns): every result must be one of the
@@ -72,6 +78,8 @@ type c18Reader struct {
 	chunks   []int
 	ci       int
 	failAt   int
+	transient error // non-nil: the failure happens once, with this error, and the stream continues
+	failedOnce bool
 	eager    bool
 	zeroRun  int
 	reads    int
@@ -84,8 +92,15 @@ func (r *c18Reader) Read(p []byte) (int, error) {
 	r.reads++
 
 	limit := len(r.data)
-	if r.failAt >= 0 && r.failAt < limit {
+	if r.failAt >= 0 && r.failAt < limit && !(r.transient != nil && r.failedOnce) {
 		limit = r.failAt
+	}
+
+	if r.transient != nil && !r.failedOnce && r.failAt >= 0 && r.pos >= r.failAt {
+		r.failedOnce = true
+		r.failures++
+
+		return 0, r.transient
 	}
 
 	if r.pos >= limit {
@@ -262,6 +277,27 @@ func c18Generate(c *mon.Ctx) {
 		}
 	}
 
+	// 4. a single interrupted read (EINTR / EAGAIN) at every offset of the first two blocks, before and after skipped blocks:
+	// the source carries on afterwards
+	tr := c.SharedRng("transient")
+
+	for fa := 0; fa <= 64; fa++ {
+		for k, skips := range []int{0, 1, 2} {
+			stream := bytesRepeat(zeroB, skips)
+			if k == 1 {
+				stream = append([]byte{}, nB...)
+			}
+
+			stream = append(stream, tr.Bytes(32)...)
+			stream = append(stream, tr.Bytes(32)...)
+			full, kind := mon.H(stream), []string{"eintr", "eagain"}[(fa+k)%2]
+			ch := [][]int{nil, {7}, {31, 1}, {16}}[(fa+k)%4]
+			c.Structured(func() any {
+				return &c18Case{Stream: full, Chunks: ch, FailAt: fa, Transient: kind, Pre: "1234", Class: "transient"}
+			})
+		}
+	}
+
 	for i := 0; i < c.N(4, 64); i++ {
 		g := []int{2, 8, 16, 4}[i%4]
 		c.Structured(func() any { return &c18Case{Conc: g, Calls: 24000 / g, Class: "concurrent", Pre: "1", FailAt: -1} })
@@ -389,7 +425,7 @@ func c18Run(c *mon.Ctx, csAny any) {
 
 	// oracle
 	avail := len(stream)
-	if cs.FailAt >= 0 && cs.FailAt < avail {
+	if cs.FailAt >= 0 && cs.FailAt < avail && cs.Transient == "" {
 		avail = cs.FailAt
 	}
 
@@ -453,6 +489,17 @@ func c18Run(c *mon.Ctx, csAny any) {
 	s := mon.Scal(pre)
 	rd := &c18Reader{data: stream, chunks: cs.Chunks, failAt: cs.FailAt, eager: cs.EagerErr}
 
+	switch cs.Transient {
+	case "eintr":
+		rd.transient = fmt.Errorf("read /dev/urandom: %w", syscall.EINTR)
+	case "eagain":
+		rd.transient = &os.PathError{Op: "read", Path: "/dev/urandom", Err: syscall.EAGAIN}
+	}
+
+	if cs.Transient != "" {
+		c.Count("fail:transient")
+	}
+
 	old := rand.Reader
 	rand.Reader = rd
 
@@ -461,6 +508,21 @@ func c18Run(c *mon.Ctx, csAny any) {
 	c.Eval(1)
 	pan, pv := mon.Call(func() { ret = s.Random() })
 	rand.Reader = old
+
+	if pan {
+		// whatever the reason for giving up: the receiver must not be left holding a weak value
+		if after := mon.ScalVal(s); (after.Sign() == 0 && pre.Sign() != 0) || !mon.ScalCanonical(s) {
+			c.Fail(fmt.Sprintf("Random panicked (%v) and left the receiver holding %x (it held %x before the call)", pv, after, pre), "random-weak-receiver-after-panic", nil)
+		}
+	}
+
+	if cs.Transient != "" && pan && rd.failedOnce {
+		// giving up on an interrupted read is acceptable
+		c.Count("outcome:panic-on-transient")
+		c.Seen(cs.Stream, cs.Chunks, cs.FailAt, cs.Transient)
+
+		return
+	}
 
 	if want == nil {
 		c.Count("outcome:panic")
